@@ -516,7 +516,7 @@ def span_rule_of(prog, ev, fn, S):
 
 
 # ------------------------------------------------------------------------------------------- R3
-FINITE_ITER = re.compile(r"^(&mut )?(core::slice::iter::Iter(Mut)?<|alloc::vec::into_iter::IntoIter<|core::str::iter::(Chars|CharIndices|Bytes)<|"
+FINITE_ITER = re.compile(r"^(&mut )?(core::slice::iter::Iter(Mut)?<|alloc::vec::into_iter::IntoIter<|core::array::iter::IntoIter<|core::ops::range::Range(Inclusive)?<|core::option::(IntoIter|Iter)<|core::iter::adapters::(step_by::StepBy|filter_map::FilterMap|flatten::(FlatMap|Flatten)|take_while::TakeWhile|skip_while::SkipWhile|map_while::MapWhile|inspect::Inspect|fuse::Fuse)<|core::iter::sources::once::Once<|core::str::iter::(Chars|CharIndices|Bytes)<|"
                          r"core::iter::adapters::(peekable::Peekable|enumerate::Enumerate|map::Map|filter::Filter|zip::Zip|skip::Skip|take::Take|rev::Rev|chain::Chain|cloned::Cloned|copied::Copied)<|"
                          r"pest::iterators::pairs::Pairs<|pest::iterators::flat_pairs::FlatPairs<|alloc::collections::|std::collections::|serde_json::map::)")
 INFINITE = re.compile(r"Repeat|Cycle|RepeatWith|FromFn|Successors|RangeFrom|iter::sources::(repeat|from_fn|successors|once_with)")
